@@ -38,6 +38,9 @@ pub struct OsState {
     pub calls: usize,
     pub call_log: Vec<String>,
     pub faults: BTreeMap<usize, Flavour>,
+    /// fail the n-th (0-based) call of one kind, e.g. ("install", 1): the second install
+    pub fail_nth_of: Option<(String, usize)>,
+    pub calls_by_kind: BTreeMap<String, usize>,
     /// installed service definitions: name -> program path
     pub services: BTreeMap<String, PathBuf>,
     /// every definition ever handed to install(), for C20
@@ -61,6 +64,14 @@ impl SimOs {
         let i = s.calls;
         s.calls += 1;
         s.call_log.push(what.to_string());
+        let nth = {
+            let c = s.calls_by_kind.entry(what.to_string()).or_default();
+            *c += 1;
+            *c - 1
+        };
+        if s.fail_nth_of.as_ref().map(|(k, n)| k == what && *n == nth).unwrap_or(false) {
+            return Some(Flavour::Error);
+        }
         s.faults.get(&i).copied()
     }
     fn injected(what: &str) -> SvcError {
